@@ -1087,3 +1087,65 @@ Proof.
   rewrite app_nth2 by (rewrite run_ops_length; lia). rewrite run_ops_length, Nat.sub_diag.
   cbn [run_ops step nth]. apply (obs_mpl_spec c pre).
 Qed.
+
+(* ------------------------------------------------------------------ layers: current values *)
+Lemma nth_set_nth {A : Type} (l : list A) : forall n m v d,
+  (n < length l)%nat -> nth m (set_nth n v l) d = if (m =? n)%nat then v else nth m l d.
+Proof.
+  induction l as [|x t IH]; intros n m v d Hn; [simpl in Hn; lia|].
+  destruct n as [|n]; destruct m as [|m]; simpl; try reflexivity.
+  apply IH. simpl in Hn. lia.
+Qed.
+
+Lemma set_nth_length {A : Type} (l : list A) : forall n v, length (set_nth n v l) = length l.
+Proof.
+  induction l as [|x t IH]; intros [|n] v; simpl; try reflexivity. rewrite IH. reflexivity.
+Qed.
+
+(* a layer of the grid's shape: width columns of height entries *)
+Definition layer_shape (w h : Z) (d : layer) : Prop :=
+  Z.of_nat (length d) = w /\ Forall (fun col => Z.of_nat (length col) = h) d.
+
+(* layer.data[x, y] = v  changes exactly that entry *)
+Lemma layer_set_get w h d x y v x' y' :
+  layer_shape w h d -> 0 <= x < w -> 0 <= y < h -> 0 <= x' -> 0 <= y' ->
+  dget (layer_set d x y v) x' y' = if (x' =? x) && (y' =? y) then v else dget d x' y'.
+Proof.
+  intros [Hw Hh] Hx Hy Hx' Hy'. unfold dget, layer_set, nthz.
+  rewrite nth_set_nth by lia.
+  destruct (x' =? x) eqn:Ex.
+  - apply Z.eqb_eq in Ex. subst x'. rewrite Nat.eqb_refl.
+    assert (Hcol : Z.of_nat (length (nth (Z.to_nat x) d [])) = h).
+    { rewrite Forall_forall in Hh. apply Hh. apply nth_In. lia. }
+    rewrite nth_set_nth by lia.
+    destruct (y' =? y) eqn:Ey.
+    + apply Z.eqb_eq in Ey. subst y'. rewrite Nat.eqb_refl. reflexivity.
+    + apply Z.eqb_neq in Ey. assert ((Z.to_nat y' =? Z.to_nat y)%nat = false) as -> by (apply Nat.eqb_neq; lia).
+      reflexivity.
+  - apply Z.eqb_neq in Ex. assert ((Z.to_nat x' =? Z.to_nat x)%nat = false) as -> by (apply Nat.eqb_neq; lia).
+    reflexivity.
+Qed.
+
+Lemma layer_set_shape w h d x y v : layer_shape w h d -> 0 <= x < w -> 0 <= y < h -> layer_shape w h (layer_set d x y v).
+Proof.
+  intros [Hw Hh] Hx Hy. unfold layer_set, nthz. split; [rewrite set_nth_length; exact Hw|].
+  apply Forall_forall. intros col Hin.
+  apply (In_nth _ _ []) in Hin. destruct Hin as [n [Hn Hcol]]. rewrite set_nth_length in Hn.
+  rewrite nth_set_nth in Hcol by lia. rewrite Forall_forall in Hh.
+  destruct (n =? Z.to_nat x)%nat.
+  - subst col. rewrite set_nth_length. apply Hh. apply nth_In. lia.
+  - subst col. apply Hh. apply nth_In. exact Hn.
+Qed.
+
+(* what is shown at the drawing position of every cell, rows first, is the layer's entry for that
+   cell - for imshow and for the hexagon mesh alike *)
+Lemma layer_view_spec sp d :
+  layer_view sp d = map (fun c => Some (dget d (fst c) (snd c))) (mesh_cells (sp_w sp) (sp_h sp)).
+Proof.
+  unfold layer_view, mesh_cells. rewrite map_flat_map.
+  apply flat_map_ext_in. intros y Hy. apply zrange_In in Hy. rewrite map_map.
+  apply map_ext_in. intros x Hx. apply zrange_In in Hx. cbn [fst snd].
+  destruct (sp_family sp);
+    try (rewrite layer_orientation by lia; reflexivity).
+  apply hex_layer_orientation; lia.
+Qed.
